@@ -124,11 +124,17 @@ def gen_record(rng, system, prn, toc_gps: datetime, both_dirs=False):
     # toe within +-2 h of toc, whole seconds; transmission up to 3 h before toe
     toe_gps = toc_gps + timedelta(seconds=rng.choice([0, 0, 16, -16, 7200, -7200, rng.randint(-7200, 7200)]))
     ttx_gps = toe_gps - timedelta(seconds=rng.choice([0, 30, 6900, 7200, rng.randint(0, 10800)]))
+    # fractional seconds of week (0.1 … 0.9 and 1e-3 steps): the values are printed reals, not integers
+    if rng.random() < 0.25:
+        toe_gps += timedelta(milliseconds=rng.choice([100 * rng.randint(1, 9), rng.randint(1, 999)]))
+    if rng.random() < 0.3:
+        ttx_gps += timedelta(milliseconds=rng.choice([100 * rng.randint(1, 9), 600, 500, rng.randint(1, 999)]))
     rec["toe_gps"], rec["ttx_gps"] = toe_gps, ttx_gps
     # as printed: in the satellite system's own time and week numbering
-    toe_sys_s = int((toe_gps - GPS0).total_seconds()) - off
-    ttx_sys_s = int((ttx_gps - GPS0).total_seconds()) - off
-    week_gps_num = toe_sys_s // WEEK
+    us = timedelta(microseconds=1)
+    toe_sys_s = Fraction((toe_gps - GPS0) // us, 10**6) - off
+    ttx_sys_s = Fraction((ttx_gps - GPS0) // us, 10**6) - off
+    week_gps_num = int(toe_sys_s // WEEK)
     rec["week_print"] = week_gps_num - WEEK_OFF.get(system, 0)
     rec["toe_print"] = toe_sys_s - week_gps_num * WEEK
     mode = rng.choice(["adjusted", "own-week"])
@@ -522,7 +528,7 @@ def oracle(ctx, case, f, p, parser):
     tx = gps_seconds(data["transmission_time"])
     for i, r in enumerate(recs):
         for nm, got, want in (("time", tt[i], r["toc_gps"]), ("toe", te[i], r["toe_gps"]), ("transmission_time", tx[i], r["ttx_gps"])):
-            w = Fraction(int((want - GPS0).total_seconds()))
+            w = Fraction((want - GPS0) // timedelta(microseconds=1), 10**6)
             if abs(got - w) > TIME_TOL:
                 kind = "week-crossing" if (r["toc_gps"] - GPS0).days // 7 != (want - GPS0).days // 7 else "same-week"
                 ctx.violate(f"time:{nm}:{r['system'] if r['system'] == 'C' else 'x'}:{kind}:{r['ttx_mode'] if nm == 'transmission_time' else ''}",
@@ -545,6 +551,10 @@ def one_file(ctx, impl, drv, f, parser):
                 if all(c is None for c in row["cells"][:4]) and len(row["cells"]) >= 4:
                     ctx.count("records with an all-blank orbit line: " + ("empty line" if row["cut"] else "line of blanks"))
     for r in f["recs"]:
+        if r["toe_gps"].microsecond:
+            ctx.count("records with fractional toe")
+        if r["ttx_gps"].microsecond:
+            ctx.count("records with fractional transmission time")
         ctx.count(f"sys:{r['system']}")
         if (r["toc_gps"] - GPS0).days // 7 != (r["toe_gps"] - GPS0).days // 7 or (r["toc_gps"] - GPS0).days // 7 != (r["ttx_gps"] - GPS0).days // 7:
             ctx.count("records whose toe / transmission time lies in another week than the epoch")
